@@ -313,3 +313,191 @@ Print Assumptions C13_error_format_full_statement_refuted.
    two-byte rune, the text of Error(); all hypotheses of the theorems above hold for it *)
 Example C13_gensource_examples : X.Bridge.BrSource.gensource_examples_statement.
 Proof. exact X.Bridge.BrSource.gensource_examples. Qed.
+
+(* ------------------------------------------------------------------------------------------------------------------
+   CAPSTONES: sections 1-6 restated over the REGENERATED code only (Bridge/BrCapstoneC13.v composes the theorems about
+   File/Source.v, Lex/Lexer.v, Parse/Parser.v with C13_model_source_is_source_code / C13_render_is_source_code,
+   C12_model_lexer_is_source and C11_model_parser_is_source).  In the statements:
+     source_Snippet F c line          results of the regenerated Snippet on the value the regenerated NewSource returns for text c
+     source_error_text F c l msg      results of the regenerated Error() on the error the regenerated Bind returns for
+                                      &Error{Location: l, Message: msg} and the regenerated NewSource(c)
+                                      (both unfold to `interp F source_funs ...` over gen/GenSource.v: C13_source_file_package_unfold)
+     LexRules.gen_lex .. lexer_funs / source_lexes, ParseRules.gen_parse parser_program, source_parse_text  (as in C12 / C11)
+   Reference side: lines / line_of / nlines (split at LF), inside, token_located, untab, line_prefix, format_suffix.
+   F bounds the iterations of every Go loop; hypotheses are those of the bridges: fewer than 2^31 - 1 runes, line and
+   column are Go ints (in_int), Column < MaxInt, F above the number of runes. *)
+Require X.File.SourceRules X.File.SourceRulesProofs X.gen.GenSource X.Lex.LexRules X.gen.GenLexer X.Parse.ParseRules X.gen.GenParser
+        X.Bridge.BrCapstoneC12 X.Bridge.BrCapstoneC11.
+Require Import X.Bridge.BrCapstoneC13.
+Module SR := X.File.SourceRules.
+Module SRP := X.File.SourceRulesProofs.
+
+Theorem C13_source_file_package_unfold : forall F c line l msg,
+  source_Snippet F c line =
+    match SR.interp F GenSource.source_funs "NewSource" SR.VNone [SR.VStr c] with
+    | SR.ROk (_, [src]) => results (SR.interp F GenSource.source_funs "Snippet" src [SR.VInt line])
+    | SR.ROk _ => SR.RCrash "results of NewSource"
+    | SR.RPanic => SR.RPanic | SR.RCrash w => SR.RCrash w | SR.RFuel => SR.RFuel
+    end /\
+  source_error_text F c l msg =
+    match SR.interp F GenSource.source_funs "NewSource" SR.VNone [SR.VStr c] with
+    | SR.ROk (_, [src]) =>
+        match SR.interp F GenSource.source_funs "Bind" (SR.VErr (SR.mkErr l msg [])) [src] with
+        | SR.ROk (_, [e']) => results (SR.interp F GenSource.source_funs "Error" e' [])
+        | SR.ROk _ => SR.RCrash "results of Bind"
+        | SR.RPanic => SR.RPanic | SR.RCrash w => SR.RCrash w | SR.RFuel => SR.RFuel
+        end
+    | SR.ROk _ => SR.RCrash "results of NewSource"
+    | SR.RPanic => SR.RPanic | SR.RCrash w => SR.RCrash w | SR.RFuel => SR.RFuel
+    end.
+Proof. exact (fun F c line l msg => conj eq_refl eq_refl). Qed.
+
+(* 1'. the regenerated Snippet: that line of the text split at LF / not found / never a panic, crash or fuel shortage *)
+Theorem C13_source_snippet : forall F s, Source.len s < 2147483647 -> forall line, s <> [] -> 1 <= line <= nlines s ->
+  source_Snippet F s line = SR.ROk [SR.VStr (line_of s line); SR.VBool true].
+Proof. exact src_snippet. Qed.
+
+Theorem C13_source_snippet_not_found : forall F s, Source.len s < 2147483647 -> forall line, SRP.in_int line ->
+  line < 1 \/ nlines s < line -> source_Snippet F s line = SR.ROk [SR.VStr []; SR.VBool false].
+Proof. exact src_snippet_not_found. Qed.
+
+Theorem C13_source_snippet_empty_source : forall F line, SRP.in_int line -> source_Snippet F [] line = SR.ROk [SR.VStr []; SR.VBool false].
+Proof. exact src_snippet_empty_source. Qed.
+
+Theorem C13_source_snippet_total : forall F s line, Source.len s < 2147483647 -> SRP.in_int line ->
+  exists t b, source_Snippet F s line = SR.ROk [SR.VStr t; SR.VBool b].
+Proof. exact src_snippet_total. Qed.
+
+(* 4'. the rendered error of the regenerated Bind / Error points at the given location, for all texts: message, then
+   " (line:col+1)", then the line of the text and the indicator line with exactly col dots before the caret *)
+Theorem C13_source_caret : forall F c msg line col,
+  Source.len c < 2147483647 -> (List.length c < F)%nat -> c <> [] -> 1 <= line <= nlines c ->
+  0 <= col <= Source.len (line_of c line) ->
+  ascii_run (firstn (S (Z.to_nat col)) (line_of c line)) = true ->
+  source_error_text F c (line, col) msg =
+    SR.ROk [SR.VStr (msg ++ format_suffix (line, col)
+                       (line_prefix ++ untab (line_of c line) ++ line_prefix ++ repeat 46 (Z.to_nat col) ++ [94]))].
+Proof. exact src_caret. Qed.
+
+Theorem C13_source_caret_dropped_after_multibyte : forall F c msg line col,
+  Source.len c < 2147483647 -> (List.length c < F)%nat -> c <> [] -> 1 <= line <= nlines c -> 0 <= col < SRP.max_int ->
+  ascii_run (firstn (S (Z.to_nat col)) (line_of c line)) = false ->
+  source_error_text F c (line, col) msg =
+    SR.ROk [SR.VStr (msg ++ format_suffix (line, col) (line_prefix ++ untab (line_of c line)))].
+Proof. exact src_caret_dropped_after_multibyte. Qed.
+
+Theorem C13_source_error_shows_line : forall F c msg l,
+  Source.len c < 2147483647 -> (List.length c < F)%nat -> c <> [] -> 1 <= fst l <= nlines c -> 0 <= snd l < SRP.max_int ->
+  exists rest, source_error_text F c l msg =
+    SR.ROk [SR.VStr (msg ++ format_suffix l (line_prefix ++ untab (line_of c (fst l)) ++ rest))].
+Proof. exact src_error_shows_line. Qed.
+
+(* 2'./3'. every location the regenerated lexer assigns or reports lies inside the text (ANY input); on laid-out token
+   sequences every token is located at its first rune, and the regenerated Snippet of its line shows it there *)
+Theorem C13_source_lexer_locations_inside : forall uni_letter uni_digit uni_space input,
+  match LexRules.gen_lex uni_letter uni_digit uni_space GenLexer.lexer_funs input with
+  | LexRules.GenOk toks => forall t, In t toks -> inside input (tloc t)
+  | LexRules.GenErr e => inside input e
+  | LexRules.GenOutOfFuel => True
+  | LexRules.GenCrash _ => False
+  end.
+Proof. exact src_lexer_locations_inside. Qed.
+
+Theorem C13_source_token_inside : forall uni_letter uni_digit uni_space items trail,
+  layout_ok uni_letter uni_digit uni_space items trail = true ->
+  exists toks, BrCapstoneC12.source_lexes uni_letter uni_digit uni_space (LexProofs.layout items trail) toks /\
+    forall tok, In tok toks -> token_located (LexProofs.layout items trail) tok.
+Proof. exact src_token_inside. Qed.
+
+Theorem C13_source_snippet_of_token : forall F uni_letter uni_digit uni_space items trail tok,
+  layout_ok uni_letter uni_digit uni_space items trail = true ->
+  Source.len (LexProofs.layout items trail) < 2147483647 ->
+  In tok (expected (1, 0) items) ->
+  BrCapstoneC12.source_lexes uni_letter uni_digit uni_space (LexProofs.layout items trail)
+    (expected (1, 0) items ++ [mkTok (lastpos (1, 0) (1, 0) (LexProofs.layout items trail)) TkEOF EmptyString]) /\
+  exists ws t r w text,
+    In (ws, t) items /\ tkind_of tok = tok_kind t /\ tval tok = tok_value t /\ tok_runes t = r :: w /\
+    source_Snippet F (LexProofs.layout items trail) (fst (tloc tok)) = SR.ROk [SR.VStr text; SR.VBool true] /\
+    text = line_of (LexProofs.layout items trail) (fst (tloc tok)) /\
+    nth_error text (Z.to_nat (snd (tloc tok))) = Some r.
+Proof. exact src_snippet_of_token. Qed.
+
+(* 5'./6'. the regenerated parser: node locations = anchor tokens; errors at a token of the list / inside the text *)
+Theorem C13_source_parse_anchor_partial : forall (o : oracles) (fmt_int : Z -> string) (fmt_float : PrimFloat.float -> string) (c : poracle) (t : expr),
+  printable gen_grammar fmt_int fmt_float o c t ->
+  ParseRules.gen_parse GenParser.parser_program gen_grammar o (print_any gen_grammar fmt_int fmt_float c t) = Some (Parser.ROk t) /\
+  forall path x kv, node_at_nb t path = Some x -> anchor_of fmt_int fmt_float x = Some kv ->
+    In (anchor_token x kv) (print_any gen_grammar fmt_int fmt_float c t).
+Proof. exact src_parse_anchor_partial. Qed.
+
+Definition C13_source_parse_anchor_full_statement : Prop := src_cond_anchor_full_statement.
+Theorem C13_source_parse_anchor_conditional_refuted : ~ C13_source_parse_anchor_full_statement.
+Proof. exact src_cond_anchor_refuted. Qed.
+
+Theorem C13_source_syntax_error_at_token : forall (o : oracles) ts l, ts <> [] ->
+  ParseRules.gen_parse GenParser.parser_program gen_grammar o ts = Some (Parser.RErr l) -> exists t, In t ts /\ l = tloc t.
+Proof. exact src_syntax_error_at_token. Qed.
+
+Theorem C13_source_syntax_error_inside : forall uni_letter uni_digit uni_space (o : oracles) txt l,
+  BrCapstoneC11.source_parse_text uni_letter uni_digit uni_space gen_grammar o txt = Some (Parser.RErr l) -> inside txt l.
+Proof. exact src_syntax_error_inside. Qed.
+
+Definition C13_source_literal_error_full_statement : Prop := src_literal_error_full_statement.
+Theorem C13_source_literal_error_refuted : ~ C13_source_literal_error_full_statement.
+Proof. exact src_literal_error_refuted. Qed.
+Theorem C13_source_literal_error_at_following_token : forall (g : grammar) (o : oracles) l0 v t1 rest,
+  number_value (o_float o) v = NLBad ->
+  ParseRules.gen_parse GenParser.parser_program g o (mkTok l0 TkNumber v :: t1 :: rest) = Some (Parser.RErr (tloc t1)).
+Proof. exact src_literal_error_at_following_token. Qed.
+
+(* front to back, ANY text: the location the regenerated lexer + parser report lies inside the text, and the error text
+   the regenerated NewSource / Bind / Error render for it shows exactly that line of the text *)
+Theorem C13_source_syntax_error_rendered : forall F uni_letter uni_digit uni_space (o : oracles) txt l msg,
+  Source.len txt < 2147483647 -> (List.length txt < F)%nat -> txt <> [] ->
+  BrCapstoneC11.source_parse_text uni_letter uni_digit uni_space gen_grammar o txt = Some (Parser.RErr l) ->
+  inside txt l /\
+  exists rest, source_error_text F txt l msg =
+    SR.ROk [SR.VStr (msg ++ format_suffix l (line_prefix ++ untab (line_of txt (fst l)) ++ rest))].
+Proof. exact src_syntax_error_rendered. Qed.
+
+Definition C13_source_capstones :=
+  (C13_source_snippet, C13_source_snippet_not_found, C13_source_snippet_empty_source, C13_source_snippet_total, C13_source_caret,
+   C13_source_caret_dropped_after_multibyte, C13_source_error_shows_line, C13_source_lexer_locations_inside, C13_source_token_inside,
+   C13_source_snippet_of_token, C13_source_parse_anchor_partial, C13_source_parse_anchor_conditional_refuted,
+   C13_source_syntax_error_at_token, C13_source_syntax_error_inside, C13_source_literal_error_refuted,
+   C13_source_literal_error_at_following_token, C13_source_syntax_error_rendered).
+Print Assumptions C13_source_capstones.
+
+(* ---- non-vacuity: all hypotheses of C13_source_caret hold of the three-line sample at (1,2), the theorem applied; and the
+   same RECOMPUTED through the interpreter of the regenerated NewSource / Bind / Error: "m (1:3)" + line + "..^" *)
+Example C13_source_caret_nonvacuous :
+  Source.len C13_sample < 2147483647 /\ (List.length C13_sample < 40)%nat /\ C13_sample <> [] /\ 1 <= 1 <= nlines C13_sample /\
+  0 <= 2 <= Source.len (line_of C13_sample 1) /\ ascii_run (firstn (S (Z.to_nat 2)) (line_of C13_sample 1)) = true.
+Proof. repeat split; vm_compute; try reflexivity; try discriminate; try (intro; discriminate); try (repeat constructor). Qed.
+
+Example C13_source_caret_applied :
+  source_error_text 40 C13_sample (1, 2) [109] =
+    SR.ROk [SR.VStr ([109] ++ format_suffix (1, 2)
+                       (line_prefix ++ untab (line_of C13_sample 1) ++ line_prefix ++ repeat 46 (Z.to_nat 2) ++ [94]))].
+Proof.
+  exact (C13_source_caret 40 C13_sample [109] 1 2
+           (proj1 C13_source_caret_nonvacuous) (proj1 (proj2 C13_source_caret_nonvacuous))
+           (proj1 (proj2 (proj2 C13_source_caret_nonvacuous))) (proj1 (proj2 (proj2 (proj2 C13_source_caret_nonvacuous))))
+           (proj1 (proj2 (proj2 (proj2 (proj2 C13_source_caret_nonvacuous))))) (proj2 (proj2 (proj2 (proj2 (proj2 C13_source_caret_nonvacuous)))))).
+Qed.
+
+Example C13_source_caret_computed :
+  source_error_text 40 C13_sample (1, 2) [109] =
+    SR.ROk [SR.VStr [109; 32; 40; 49; 58; 51; 41; 10; 32; 124; 32; 97; 32; 43; 32; 233; 10; 32; 124; 32; 46; 46; 94]] /\
+  source_Snippet 40 C13_sample 2 = SR.ROk [SR.VStr [32; 32; 26085; 26412; 32; 42; 32; 110; 111; 112; 101]; SR.VBool true] /\
+  source_Snippet 40 C13_sample 4 = SR.ROk [SR.VStr []; SR.VBool false].
+Proof. vm_compute. repeat split. Qed.
+
+(* front to back, computed through the three regenerated interpreters: the unterminated literal of the two-line text  a + DQUOTE b LF c  is
+   reported at (2,0) by the regenerated lexer, and rendered with line 2 of the text *)
+Example C13_source_syntax_error_computed :
+  BrCapstoneC11.source_parse_text (fun _ => false) (fun _ => false) (fun _ => false) gen_grammar (mkOracles (fun _ => None) (fun _ => true))
+    [97; 32; 43; 32; 34; 98; 10; 99] = Some (Parser.RErr (2, 0)) /\
+  source_error_text 20 [97; 32; 43; 32; 34; 98; 10; 99] (2, 0) [109] =
+    SR.ROk [SR.VStr [109; 32; 40; 50; 58; 49; 41; 10; 32; 124; 32; 99; 10; 32; 124; 32; 94]].
+Proof. vm_compute. split; reflexivity. Qed.
